@@ -177,6 +177,13 @@ func c17R3(h H) {
 		if fn == nil {
 			continue
 		}
+		if spec.name == "Proxy.ServeHTTP" {
+			// decided along the proxy's traces (E10): the limit exceeded while the body is buffered, and reported by
+			// the backend round trip (wrapped: only errors.Is recognises it)
+			t := proxyTraces(h)
+			r.Check(t.large == "" && t.other == "", "R3", shortFunc(fn)+"/413-on-too-large", fn.Pos(), "an exceeded body limit is answered 413 at each place where this handler consumes the request body (while buffering it, and when the backend round trip reports it)", sprintf("%d scripts evaluated", t.n), t.large, t.other)
+			continue
+		}
 		good := 0
 		// the test may live in the handler or in a helper it was split into; a predicate function that returns
 		// errors.Is(err, ErrMaxBytesExceeded) on all paths counts as the test
